@@ -3,13 +3,18 @@
    input line : <id> <prefix 0|1><patched 0|1> <now> <users> <notices> <step> <step> ...
      notices = comma separated <k>:<bytes> (wire size of the notice frame Session.Close sent for session k) | -
      users = comma separated  <uid>:<cap>:<up>:<down>:<expiry>  |  b<uid> (bypass UID)  |  - (none)
-     step  = D<uid>.<sid>[h]   dispatch a connection (h: stop at schedule point dispatch.gotUser)
+     step  = D<uid>.<sid>[h][a][s]  dispatch a connection (h: stop at schedule point dispatch.gotUser;
+                               a: stop INSIDE Manager.AuthenticateUser, i.e. at D1 holding activeUsersM, when the
+                               lookup misses; s: stop inside Manager.AuthoriseNewSession, i.e. at D3 holding the
+                               record's sessionsM, when the session is new)
            | C<k>              CloseSession of session k (numbered in creation order) on its record
            | B<k>              session k closes on its own (no CloseSession)
            | E<uid>.<sid>      the session stored under (uid, sid) of the user's active record ends:
                                it closes, then its serveSession calls CloseSession (C15 driver)
-           | U[h] | M | R[h]   updateUsageQueue (h: stop at updateUsageQueue.firstLock) | commitUpdate | both
-           | G<t>              release thread t from its schedule point
+           | U[h] | M[u] | R[h][u]  updateUsageQueue (h: stop at updateUsageQueue.firstLock) | commitUpdate | both
+                               (u: stop inside Manager.UploadStatus, i.e. at M8, no lock held)
+           | G<t>              release thread t from the point it is parked at; not parked: disarm it
+           | g<t>              release thread t if it is parked, otherwise nothing
            | T<k>.<rx>.<tx>    traffic on session k
            | Aw<uid>[.c<cap>][.u<up>][.d<down>][.e<exp>]  | Ad<uid>   admin API write / delete
            | K<secs>           clock advances
@@ -19,7 +24,8 @@
 let z_of_int i = if i = 0 then Z0 else if i > 0 then Zpos (pos_of_int i) else Zneg (pos_of_int (-i))
 let int_of_z = function Z0 -> 0 | Zpos p -> int_of_pos p | Zneg p -> - (int_of_pos p)
 
-type tinfo = { kind : char; mutable armed : bool; mutable result : string; mtid : int (* thread id in the model, -1: none *) }
+type tinfo = { kind : char; mutable armed : bool; mutable marms : mpoint list (* manager park points still armed *);
+               mutable result : string; mtid : int (* thread id in the model, -1: none *) }
 
 let parse_users (u : string) =
   let recs = ref [] and byp = ref [] and order = ref [] in
@@ -53,6 +59,12 @@ let run_scenario (cfgs : string) (now0 : int) (users : string) (notices : string
   let tinfo t = List.nth !threads (nthreads () - 1 - t) in
   let uids = ref uids in
   let note_uid u = if not (List.mem u !uids) then uids := !uids @ [u] in
+  (* where an armed thread stands still: `H = a vhook schedule point, `M k = inside the manager call k *)
+  let parked_at ti p =
+    if ti.armed && at_hook p then Some `H
+    else match at_mgr c !s p with
+      | Some k when List.exists (fun k' -> mpoint_eqb k k') ti.marms -> Some (`M k)
+      | _ -> None in
   (* advance one thread as far as it goes; true if it moved *)
   let advance t0 =
     let ti = tinfo t0 in
@@ -62,7 +74,7 @@ let run_scenario (cfgs : string) (now0 : int) (users : string) (notices : string
     while !continue do
       let p = !s.thr (nat_of_int t) in
       if is_done p then continue := false
-      else if ti.armed && at_hook p then continue := false
+      else if parked_at ti p <> None then continue := false
       else match step c !s (Run (nat_of_int t, O)) with
         | None -> continue := false
         | Some s' ->
@@ -85,10 +97,13 @@ let run_scenario (cfgs : string) (now0 : int) (users : string) (notices : string
       again := false;
       for t = 0 to nthreads () - 1 do if advance t then again := true done
     done in
+  let next_marms = ref [] in
   let spawn kind armed o =
+    let marms = !next_marms in
+    next_marms := [];
     match step c !s (Spawn o) with
-    | Some s' -> let m = int_of_nat !s.nthr in s := s'; threads := { kind; armed; result = ""; mtid = m } :: !threads
-    | None -> threads := { kind; armed = false; result = "bad"; mtid = -1 } :: !threads  (* invalid op: a finished dummy *)
+    | Some s' -> let m = int_of_nat !s.nthr in s := s'; threads := { kind; armed; marms; result = ""; mtid = m } :: !threads
+    | None -> threads := { kind; armed = false; marms = []; result = "bad"; mtid = -1 } :: !threads  (* invalid op: a finished dummy *)
   in
   let env l = match step c !s l with Some s' -> s := s' | None -> () in
   let reported = Hashtbl.create 16 in
@@ -103,7 +118,7 @@ let run_scenario (cfgs : string) (now0 : int) (users : string) (notices : string
       let st =
         if ti.result = "bad" then (if Hashtbl.mem reported t then "" else (Hashtbl.add reported t (); "X"))
         else if is_done p then (if Hashtbl.mem reported t then "" else (Hashtbl.add reported t (); "F" ^ ti.result))
-        else if ti.armed && at_hook p then "H"
+        else if parked_at ti p <> None then "H"
         else "B" in
       if st <> "" then begin
         if not !first then Buffer.add_char b ',';
@@ -150,9 +165,23 @@ let run_scenario (cfgs : string) (now0 : int) (users : string) (notices : string
     Buffer.contents b in
   let ints_after (st : string) (from : int) = List.map int_of_string (split_on '.' (String.sub st from (String.length st - from))) in
   List.map (fun (st : string) ->
-    let n = String.length st in
-    let hooked = n > 0 && st.[n - 1] = 'h' in
-    let body = if hooked then String.sub st 0 (n - 1) else st in
+    (* park-point suffixes of D / U / M / R steps *)
+    let body = ref st and hooked = ref false and marms = ref [] in
+    if String.length st > 0 && String.contains "DUMR" st.[0] then begin
+      let continue = ref true in
+      while !continue do
+        let n = String.length !body in
+        if n > 1 && String.contains "hasu" !body.[n - 1] then begin
+          (match !body.[n - 1] with
+           | 'h' -> hooked := true
+           | 'a' -> marms := MpAuth :: !marms
+           | 's' -> marms := MpSess :: !marms
+           | _ -> marms := MpUpload :: !marms);
+          body := String.sub !body 0 (n - 1) end
+        else continue := false
+      done end;
+    let body = !body and hooked = !hooked in
+    next_marms := !marms;
     (match body.[0] with
      | 'D' -> (match ints_after body 1 with
          | [u; sd] -> note_uid u; spawn 'D' hooked (OpDispatch (n_of_int u, n_of_int sd))
@@ -174,8 +203,15 @@ let run_scenario (cfgs : string) (now0 : int) (users : string) (notices : string
      | 'U' -> spawn 'U' hooked OpUpdate
      | 'M' -> spawn 'M' false OpCommit
      | 'R' -> spawn 'R' hooked OpRound
-     | 'G' -> let t = int_of_string (String.sub body 1 (String.length body - 1)) in
-       if t < nthreads () then (tinfo t).armed <- false
+     | 'G' | 'g' -> let t = int_of_string (String.sub body 1 (String.length body - 1)) in
+       if t < nthreads () then begin
+         let ti = tinfo t in
+         let p = if ti.mtid >= 0 then !s.thr (nat_of_int ti.mtid) else Done in
+         match parked_at ti p with
+         | Some `H -> ti.armed <- false
+         | Some (`M k) -> ti.marms <- List.filter (fun k' -> not (mpoint_eqb k k')) ti.marms
+         | None -> if body.[0] = 'G' then begin ti.armed <- false; ti.marms <- [] end
+       end
      | 'T' -> (match ints_after body 1 with
          | [k; rx; tx] -> env (Traffic (nat_of_int k, (z_of_int rx, z_of_int tx)))
          | _ -> failwith st)
